@@ -1091,3 +1091,96 @@ func selftest(t *testing.T) {
 	vlib.Selftest("C19 field constants, element codec, bit encoding", "ok")
 	vlib.Selftest("ref/prio3xof (XofTurboShake128 and share/joint-randomness derivations) against the draft's XofTurboShake128, Prio3Sum_1 and Prio3Histogram_1 vectors; ref/keccak against RFC 9861", "ok")
 }
+
+// ---------------------------------------------------------------------------
+// many aggregators, quick tier too: one honest report per instance (smallest
+// admissible parameters) with 127, 128, 129, 200 and 255 aggregators through
+// shard → prepare → aggregate → unshard, and RAND_SIZE = SEED_SIZE * SHARES
+// (twice that with joint randomness; draft-13 §7.2, Table 7): Shard must take
+// exactly that much randomness.
+
+func TestC19ManyAggregators(t *testing.T) {
+	defer vlib.Done()
+	ctx := []byte("many aggregators")
+	mk := map[string]func(shares uint8) (*icase, *buildErr, any){
+		"count":     func(s uint8) (*icase, *buildErr, any) { c, be := newCountCase(s, ctx); return c, be, true },
+		"sum":       func(s uint8) (*icase, *buildErr, any) { c, be := newSumCase(s, 1, ctx); return c, be, uint64(1) },
+		"sumvec":    func(s uint8) (*icase, *buildErr, any) { c, be := newSumVecCase(s, 1, 1, 1, ctx); return c, be, []uint64{1} },
+		"histogram": func(s uint8) (*icase, *buildErr, any) { c, be := newHistogramCase(s, 1, 1, ctx); return c, be, uint64(0) },
+		"mhcv":      func(s uint8) (*icase, *buildErr, any) { c, be := newMhcvCase(s, 1, 1, 1, ctx); return c, be, []bool{true} },
+	}
+	for _, name := range instNames {
+		for k, shares := range []uint8{127, 128, 129, 200, 255} {
+			sub := "many/" + name
+			vlib.Eval(sub)
+			replay := map[string]interface{}{"instance": name, "shares": shares, "seed": vlib.Seed}
+			c, be, m := mk[name](shares)
+			if be != nil {
+				vlib.ReportDirect(t, "C19/constructor/"+name+"/valid-params-refused", fmt.Sprintf("%s with %d aggregators: err=%v panic=%v", name, shares, be.err, be.panicked), replay)
+				continue
+			}
+			I := c.I
+			l := I.L()
+			wantRand := seedSize * int(shares)
+			if l.jr {
+				wantRand *= 2
+			}
+			if l.randSize != wantRand {
+				vlib.ReportDirect(t, "C19/rand-size/"+name, fmt.Sprintf("%s: Params().RandSize() = %d, specified RAND_SIZE = %d", c.desc, l.randSize, wantRand), replay)
+				continue
+			}
+			r := &report{m: m, rand: make([]byte, wantRand)}
+			vlib.ExpandInto(r.rand, uint64(vlib.Seed)*1000+uint64(k))
+			vlib.ExpandInto(r.nonce[:], uint64(vlib.Seed)*1000+100+uint64(k))
+			var vk VerifyKey
+			vlib.ExpandInto(vk[:], uint64(vlib.Seed)*1000+200+uint64(k))
+			var err error
+			var o outcome
+			var got any
+			stage := "Shard"
+			p, st := vlib.Catch(func() {
+				r.pub, r.ins, err = I.Shard(m, &r.nonce, r.rand)
+				if err != nil {
+					return
+				}
+				stage = "prepare"
+				o = process(I, &vk, honestView(I, r))
+				if !o.accepted {
+					err = o.err
+					return
+				}
+				stage = "aggregate"
+				aggs := make([][]byte, l.shares)
+				for i := range aggs {
+					var a []byte
+					if a, err = I.AggInit(); err != nil {
+						return
+					}
+					if aggs[i], err = I.AggUpdate(a, o.outs[i]); err != nil {
+						return
+					}
+				}
+				stage = "Unshard"
+				got, err = I.Unshard(aggs, 1)
+			})
+			switch {
+			case p != nil:
+				vlib.ReportDirect(t, "C19/panic/"+name+"/"+stage+"/"+vlib.PanicClass(p), fmt.Sprintf("%s: %v\n%s", c.desc, p, st), replay)
+			case err != nil:
+				if _, hv := classify(err); hv != nil {
+					vlib.ReportDirect(t, hv.key, c.desc+": "+hv.detail, replay)
+				} else {
+					vlib.ReportDirect(t, "C19/honest-rejected/"+name+"/"+stage, fmt.Sprintf("%s measurement %v with %d bytes of randomness: %v", c.desc, m, len(r.rand), err), replay)
+				}
+			default:
+				if s := sumShares(l, o.outs); !vecEq(s, c.output(m)) {
+					vlib.ReportDirect(t, "C19/out-shares/"+name, fmt.Sprintf("%s: output shares add up to %s", c.desc, fmtVec(s)), replay)
+				} else if eq, _ := aggEqual(c, got, c.output(m)); !eq {
+					vlib.ReportDirect(t, "C19/aggregate/"+name+"/mismatch", fmt.Sprintf("%s measurement %v: Unshard = %v", c.desc, m, got), replay)
+				} else {
+					vlib.NonTrivial(sub, fmt.Sprintf("shares=%d", shares), []byte(c.desc), r.rand, r.nonce[:], vk[:])
+				}
+			}
+		}
+	}
+}
